@@ -311,7 +311,10 @@ impl Command for FunctionCommand {
             };
 
             match get_fn_info_from_state(context.state, &function_name) {
-                Some(fn_info) => {
+                // the stored info only counts while the name is still taken, the command may have been removed
+                Some(fn_info)
+                    if fn_info.start == context.line || context.commands.exists(&function_name) =>
+                {
                     if fn_info.start != context.line {
                         CommandResult::Error(
                             format!(
@@ -324,7 +327,7 @@ impl Command for FunctionCommand {
                         CommandResult::GoTo(None, GoToValue::Line(fn_info.end + 1))
                     }
                 }
-                None => {
+                _ => {
                     let mut start_names = self.aliases();
                     start_names.push(self.name());
                     let end_command = EndFunctionCommand {
